@@ -67,7 +67,8 @@ class P(Prop):
             "cell sizes and margins, tracks of 1..7 observations (a third of the real stream: 1..2) on / near / far from the network, exactly on nodes and vertices, outside the index "
             "extent, several radii and noise values; SESSION stream: on one network / index object, 1..3 calls of mapOnNetwork, the first on a TrackCollection of 2..3 tracks of different "
             "lengths that are not co-located, later calls on collections, plain lists or bare tracks, tracks matched again (their obs_noise / hmm_inference / hmm_cost columns already "
-            "exist), user features with those names, radius and noise changing between calls, transition_cost / debug / verbose / positional arguments; the oracle is applied to every "
+            "exist), user features with those names, radius and noise changing between calls, transition_cost / debug / verbose / positional arguments, for 30 % of the sessions the module "
+            "was used before on another (one-edge) network; the oracle is applied to every "
             "track of every call through its own hmm_inference column and measures on Edge.geom as read back from the network after the call; the network state after construction "
             "(geometries, abs_curv columns, node table, edge ends, grid) and per track STATES (as sets, and in the real order), hmm_inference, feature names, obs_noise column and "
             "positions are compared with the model's. non-trivial = at least one observation within the radius of an edge")
@@ -345,7 +346,7 @@ class P(Prop):
         if stream == "real":
             edges = self.live_edges(edges)
             stream = "decimal"
-        xs = [p[0] for e in edges for p in e["g"]]
+        xs = [p[0] for e in base["edges"] for p in e["g"]]
         ax = max(xs) - min(xs)
         ntr = rng.randint(2, 4)
         tracks = []
@@ -388,6 +389,8 @@ class P(Prop):
         for k in ("via", "nodes", "late", "strids"):
             if k in base:
                 out[k] = base[k]
+        if rng.random() < 0.3:
+            out["warm"] = rng.choice([1, 2, 9])     # the module was used before, on another network, for a track of that many observations
         return out
 
     @staticmethod
@@ -425,6 +428,7 @@ class P(Prop):
             (["M"] if max(len(e["g"]) for e in case["edges"]) >= 6 else []))))
         return {"kind": case["kind"], "stream": case.get("stream", "?"), "edges": len(case["edges"]),
                 "via": case.get("via", "direct") + ("+strids" if case.get("strids") else ""), "node_gap": gap, "shape": shape,
+                "warm": bool(case.get("warm")),
                 "args": "".join(sorted(set("".join(("t" if "tc" in c else "") + ("d" if c.get("debug") else "") + ("v" if c.get("verbose") else "") +
                                                         ("p" if c.get("positional") else "") + ("l" if c.get("form") == "list" else "") for c in S["calls"])))),
                 "obs": sum(len(t) for t in S["tracks"]), "calls": len(S["calls"]),
@@ -570,6 +574,21 @@ class P(Prop):
             for name, val in sorted((S.get("pre") or {}).get(str(ti), {}).items()):
                 trk.createAnalyticalFeature(name, val)
             tracks.append(trk)
+        # every case starts from the module as it is after import (the globals STATES / net do not exist yet) and leaves it so:
+        # what a case can read from earlier uses of the module is only what the case itself did (`warm`, earlier calls)
+        for name in ("STATES", "net"):
+            if hasattr(mp, name):
+                delattr(mp, name)
+        if S.get("warm"):
+            # module-level state left by an EARLIER use of the module on ANOTHER network (mapping.STATES, mapping.net):
+            # a one-edge network far away is matched first; nothing of it may be read by the calls of the session
+            try:
+                wnet = self.build({"edges": [{"id": 500, "s": 500, "t": 501, "g": [[1000.0, 1000.0], [1004.0, 1003.0]]}], "res": [1.0, 1.0], "margin": 0.3})
+                wt = T["Track"]([T["Obs"](T["E"](1001.0 + 2 * i, 1001.5 + i, 0), T["ObsTime"].readUnixTime(10 * i)) for i in range(S["warm"])])
+                mp.mapOnNetwork(wt, wnet, gps_noise=3.0, search_radius=2.0)
+            except BaseException as e:
+                if isinstance(e, KeyboardInterrupt):
+                    raise
         captured, snaps, done = [], [], []
         si = net.spatial_index
         orig = si.neighborhood
@@ -593,7 +612,6 @@ class P(Prop):
             done.append(True)
             return r
         HMM.estimate = est
-        saved = getattr(mp, "STATES", None)
         calls_out = []
         try:
             for call in S["calls"]:
@@ -665,8 +683,9 @@ class P(Prop):
                     break
         finally:
             HMM.estimate = orig_est
-            if saved is not None:
-                mp.STATES = saved
+            for name in ("STATES", "net"):
+                if hasattr(mp, name):
+                    delattr(mp, name)
         out = {"calls": calls_out, "net": net0}
         self._cache[key] = ([(ci, t) for ci, co in enumerate(calls_out) for t in co["tracks"] if t["cand"]], out)
         if calls_out and "err" in calls_out[-1]:
@@ -818,6 +837,9 @@ class P(Prop):
             return "edge ends differ: impl=%s model=%s" % (net["ends"], m["ends"])
         if m["grid"] is None or not close(net["grid"][:4], m["grid"][:4], self.rel_tol) or net["grid"][4:] != m["grid"][4:]:
             return "spatial index extent / dimensions differ: impl=%s model=%s" % (net["grid"], m["grid"])
+        for ci, co in enumerate(impl_out["calls"]):
+            if co.get("geoms") is not None and co["geoms"] != net["geoms"]:
+                return "call %d: mapOnNetwork changed the edge geometries of the network (the model never writes to the network)" % ci
         cos = [co for co in impl_out["calls"] if co["tracks"]]
         if len(cos) != len(m["calls"]):
             return "%d calls ran, %d model calls" % (len(cos), len(m["calls"]))
